@@ -487,14 +487,61 @@ impl Ctx {
         });
     }
 
+    /// Per-case watchdog limit: a single case (not a whole check) that runs longer than this is a
+    /// hang of the code under test; it is reported as INCONCLUSIVE (exit 2), never as a violation,
+    /// unless violations were already found (then those are reported, exit 1).
+    pub fn case_timeout(&self) -> std::time::Duration {
+        let secs = std::env::var("VERIF_CASE_TIMEOUT").ok().and_then(|s| s.parse::<u64>().ok()).unwrap_or(match self.tier {
+            Tier::Quick => 120,
+            Tier::Thorough => 900,
+        });
+        std::time::Duration::from_secs(secs)
+    }
+
+    fn save_hang(&self, sub: &str, case: Value) {
+        let doc = json!({"property": self.prop, "sub": sub, "signature": "watchdog:case-timeout", "message": "this case did not finish within the per-case limit", "case": case});
+        let dir = out_dir().join("replays");
+        let _ = std::fs::create_dir_all(&dir);
+        let path = dir.join(format!("{}-{}-hang-{:016x}.json", self.prop, sub, hash_json(&doc)));
+        let _ = std::fs::write(&path, serde_json::to_string_pretty(&doc).unwrap());
+        self.inconclusive(format!(
+            "watchdog: a case of sub-check {} did not finish within {} s (hang or extreme slowness of the code under test); the case is saved at {}",
+            sub,
+            self.case_timeout().as_secs(),
+            path.display()
+        ));
+    }
+
+    fn hang(&self, sub: &str, case: Value) -> ! {
+        let doc = json!({"property": self.prop, "sub": sub, "signature": "watchdog:case-timeout", "message": "this case did not finish within the per-case limit", "case": case});
+        let dir = out_dir().join("replays");
+        let _ = std::fs::create_dir_all(&dir);
+        let path = dir.join(format!("{}-{}-hang-{:016x}.json", self.prop, sub, hash_json(&doc)));
+        let _ = std::fs::write(&path, serde_json::to_string_pretty(&doc).unwrap());
+        self.inconclusive(format!(
+            "watchdog: a case of sub-check {} did not finish within {} s (hang or extreme slowness of the code under test); the case is saved at {}",
+            sub,
+            self.case_timeout().as_secs(),
+            path.display()
+        ));
+        let code = self.finish();
+        std::process::exit(code);
+    }
+
     /// Evaluate a fixed list of cases in parallel.
     pub fn run_fixed<C: Check>(&self, check: &C, cases: Vec<C::Case>) {
         let sub = check.name();
         let next = AtomicUsize::new(0);
         let cases = &cases;
+        let workers = self.jobs.min(cases.len().max(1));
+        let slots: Vec<Mutex<Option<(Instant, usize)>>> = (0..workers).map(|_| Mutex::new(None)).collect();
+        let live = AtomicUsize::new(workers);
         std::thread::scope(|s| {
-            for _ in 0..self.jobs.min(cases.len().max(1)) {
-                s.spawn(|| {
+            for w in 0..workers {
+                let slots = &slots;
+                let live = &live;
+                let next = &next;
+                s.spawn(move || {
                     let mut acc = Acc::new();
                     loop {
                         let i = next.fetch_add(1, Ordering::Relaxed);
@@ -502,7 +549,10 @@ impl Ctx {
                             break;
                         }
                         let case = &cases[i];
-                        match guarded_eval(check, case) {
+                        *slots[w].lock().unwrap() = Some((Instant::now(), i));
+                        let verdict = guarded_eval(check, case);
+                        *slots[w].lock().unwrap() = None;
+                        match verdict {
                             Verdict::Pass(info) => acc.pass(case, info),
                             Verdict::Fail { sig, msg } => {
                                 let v = serde_json::to_value(case).unwrap_or(Value::Null);
@@ -511,7 +561,23 @@ impl Ctx {
                         }
                     }
                     self.merge_acc(sub, acc);
+                    live.fetch_sub(1, Ordering::SeqCst);
                 });
+            }
+            // monitor
+            let limit = self.case_timeout() * 4; // fixed cases are whole statistical cells
+            while live.load(Ordering::SeqCst) > 0 {
+                std::thread::sleep(std::time::Duration::from_millis(200));
+                for sl in slots.iter() {
+                    let g = sl.lock().unwrap();
+                    if let Some((t0, i)) = *g {
+                        if t0.elapsed() > limit {
+                            let v = serde_json::to_value(&cases[i]).unwrap_or(Value::Null);
+                            drop(g);
+                            self.hang(sub, v);
+                        }
+                    }
+                }
             }
         });
     }
@@ -526,6 +592,11 @@ impl Ctx {
         let jobs = self.jobs.max(1) as u64;
         let stop = AtomicBool::new(false);
         let executed = AtomicU64::new(0);
+        let slots: Vec<Mutex<Option<(Instant, C::Case)>>> = (0..jobs).map(|_| Mutex::new(None)).collect();
+        // latest failing case seen by each worker (kept up to date while proptest shrinks), so that a
+        // failure is not lost if a shrink candidate hangs
+        let pending: Vec<Mutex<Option<(Value, String, String)>>> = (0..jobs).map(|_| Mutex::new(None)).collect();
+        let live = AtomicUsize::new(0);
         std::thread::scope(|s| {
             for w in 0..jobs {
                 let per = cases / jobs + if w < cases % jobs { 1 } else { 0 };
@@ -535,6 +606,10 @@ impl Ctx {
                 let stop = &stop;
                 let executed = &executed;
                 let mk = &mk;
+                let slots = &slots;
+                let pending = &pending;
+                let live = &live;
+                live.fetch_add(1, Ordering::SeqCst);
                 s.spawn(move || {
                     let seed = self.sub_seed(sub, w);
                     let mut seed_bytes = [0u8; 32];
@@ -562,7 +637,10 @@ impl Ctx {
                         if !failing.get() && stop.load(Ordering::Relaxed) {
                             return Ok(());
                         }
-                        match guarded_eval(check, &case) {
+                        *slots[w as usize].lock().unwrap() = Some((Instant::now(), case.clone()));
+                        let verdict = guarded_eval(check, &case);
+                        *slots[w as usize].lock().unwrap() = None;
+                        match verdict {
                             Verdict::Pass(info) => {
                                 if !failing.get() {
                                     executed.fetch_add(1, Ordering::Relaxed);
@@ -581,6 +659,7 @@ impl Ctx {
                                 failing.set(true);
                                 stop.store(true, Ordering::Relaxed);
                                 *last_fail.borrow_mut() = Some((sig.clone(), msg.clone()));
+                                *pending[w as usize].lock().unwrap() = Some((serde_json::to_value(&case).unwrap_or(Value::Null), sig.clone(), msg.clone()));
                                 Err(TestCaseError::fail(format!("{}|{}", sig, msg)))
                             }
                         }
@@ -597,6 +676,7 @@ impl Ctx {
                                     .unwrap_or(("flaky".into(), "shrunk value passes on re-evaluation".into())),
                             };
                             let v = serde_json::to_value(&value).unwrap_or(Value::Null);
+                            *pending[w as usize].lock().unwrap() = None;
                             self.handle_fail(sub, &v, &sig, &msg, None);
                         }
                         Err(TestError::Abort(why)) => {
@@ -604,7 +684,42 @@ impl Ctx {
                         }
                     }
                     self.merge_acc(sub, acc.into_inner());
+                    live.fetch_sub(1, Ordering::SeqCst);
                 });
+            }
+            // monitor: a single generated case must not run forever. A worker stuck in a hanging case
+            // is abandoned (its case is saved); the other workers finish their budget so that
+            // violations they find are still reported; then the process exits (2, or 1 with violations).
+            let limit = self.case_timeout();
+            let mut abandoned = vec![false; slots.len()];
+            let mut stuck = 0usize;
+            loop {
+                if live.load(Ordering::SeqCst) <= stuck {
+                    break;
+                }
+                std::thread::sleep(std::time::Duration::from_millis(200));
+                for (w, sl) in slots.iter().enumerate() {
+                    if abandoned[w] {
+                        continue;
+                    }
+                    let g = sl.lock().unwrap();
+                    if let Some((t0, case)) = &*g {
+                        if t0.elapsed() > limit {
+                            let v = serde_json::to_value(case).unwrap_or(Value::Null);
+                            drop(g);
+                            abandoned[w] = true;
+                            stuck += 1;
+                            self.save_hang(sub, v);
+                            if let Some((case, sig, msg)) = pending[w].lock().unwrap().take() {
+                                self.handle_fail(sub, &case, &sig, &format!("{} [not fully shrunk: a shrink candidate hung]", msg), None);
+                            }
+                        }
+                    }
+                }
+            }
+            if stuck > 0 {
+                let code = self.finish();
+                std::process::exit(code);
             }
         });
     }
@@ -616,25 +731,48 @@ impl Ctx {
         F: Fn(usize, &mut Acc) -> Option<(Value, String, String)> + Sync,
     {
         let next = AtomicUsize::new(0);
+        let workers = self.jobs.min(n.max(1));
+        let slots: Vec<Mutex<Option<(Instant, usize)>>> = (0..workers).map(|_| Mutex::new(None)).collect();
+        let live = AtomicUsize::new(workers);
         std::thread::scope(|s| {
-            for _ in 0..self.jobs.min(n.max(1)) {
-                s.spawn(|| {
+            for w in 0..workers {
+                let slots = &slots;
+                let live = &live;
+                let next = &next;
+                let f = &f;
+                s.spawn(move || {
                     let mut acc = Acc::new();
                     loop {
                         let i = next.fetch_add(1, Ordering::Relaxed);
                         if i >= n {
                             break;
                         }
+                        *slots[w].lock().unwrap() = Some((Instant::now(), i));
                         let r = match catch(|| f(i, &mut acc)) {
                             Ok(r) => r,
                             Err(p) => Some((json!({"index": i}), panic_sig(&p), format!("panic: {}", p))),
                         };
+                        *slots[w].lock().unwrap() = None;
                         if let Some((case, sig, msg)) = r {
                             self.handle_fail(sub, &case, &sig, &msg, Some(&mut acc));
                         }
                     }
                     self.merge_acc(sub, acc);
+                    live.fetch_sub(1, Ordering::SeqCst);
                 });
+            }
+            let limit = self.case_timeout() * 4; // an index stands for a whole enumeration slice
+            while live.load(Ordering::SeqCst) > 0 {
+                std::thread::sleep(std::time::Duration::from_millis(200));
+                for sl in slots.iter() {
+                    let g = sl.lock().unwrap();
+                    if let Some((t0, i)) = *g {
+                        if t0.elapsed() > limit {
+                            drop(g);
+                            self.hang(sub, json!({"enumeration_index": i}));
+                        }
+                    }
+                }
             }
         });
     }
